@@ -14,6 +14,7 @@ import heapq
 import itertools
 import queue as _rq
 import random as _rrandom
+import os
 import sys
 import threading as _rt
 import time as _rtime
@@ -454,6 +455,8 @@ class Scheduler:
     def _line_tracer(self, frame, event, arg):
         if event == "line" and not self.dead:
             if self.cur is not None and self.cur.os_thread is _rt.current_thread():
+                if _DEBUG_LINES:
+                    print(f"{self.now:.4f} [{str(self.cur.name)[:44]}] {frame.f_code.co_name}:{frame.f_lineno}", file=sys.stderr)
                 if frame.f_code in self.lag_codes and self.lag_rng.random() < self.line_lag_p:
                     # the thread is descheduled between two statements for a while: everything else that can happen at this
                     # instant happens first
@@ -461,6 +464,9 @@ class Scheduler:
                 else:
                     self.yield_point("line")
         return self._line_tracer
+
+
+_DEBUG_LINES = bool(os.environ.get("SIMRT_TRACE_LINES"))
 
 
 def run(main, *, seed=0, policy="fifo", switch_prob=0.2, script=None, max_vtime=100000.0,
